@@ -46,6 +46,10 @@ type State struct {
 	// should accept the current string without consuming additional input.
 	NonGreedy bool
 
+	// Rule identifies the lexer rule this state was built for (0 if none). It is
+	// used to pair a NonGreedy state with the accepting state of the same rule.
+	Rule int
+
 	// Data is some user-data associated with this state.
 	// Your set this yourself (or don't, I don't care).
 	Data any
